@@ -349,6 +349,7 @@ write:
 		t.writeError = err
 		t.sentInitPacket = nil
 		t.sentInitMsg = nil
+		verifHSTrace(t, "kexdone", nil)
 
 		t.resetWriteThresholds()
 
@@ -604,6 +605,7 @@ func (t *handshakeTransport) writePacket(p []byte) error {
 			cp := make([]byte, len(p))
 			copy(cp, p)
 			t.pendingPackets = append(t.pendingPackets, cp)
+			verifHSTrace(t, "queued", cp)
 			return nil
 		}
 		for t.sentInitMsg != nil {
